@@ -5,7 +5,7 @@
     [pf] stands for std's f64::from_str and is universally quantified (nothing is assumed of it).
     [glif_ok pf d] is the declarative rule predicate (Model/GlifSpec.v), [glyph_rules g] the rules
     on glyph values, F14 / F16 / F17 the structurally described classes of known deviations. *)
-Require Import Norad.Model.GlifSpec Norad.Proofs.GlifParseP Norad.Proofs.GlifSpecP.
+Require Import Norad.Model.GlifSpec Norad.Proofs.GlifParseP Norad.Proofs.GlifSpecP Norad.Proofs.GlifCompleteP.
 Open Scope N_scope.
 
 (** ---------- soundness of acceptance ---------- *)
@@ -53,12 +53,23 @@ Proof.
 Qed.
 
 (** ---------- completeness of acceptance ---------- *)
-(** The full-strength statement: every rule-obeying document is accepted.  NOT proved for the
-    model (see C12_complete_refuted_F14, _F17): the reader rejects legal surface forms (F14, F17).
-    The positive theorem [glif_ok pf d -> ~ F14 d -> ~ F17 d -> exists g, parse_glif pf d = Ok g]
-    is NOT proved yet (missing: the converse of every loop lemma of Proofs/GlifParseP.v); the
-    implication is exercised on every generated rule-obeying document by the correspondence run
-    (model verdict = implementation verdict, and glif_okb = label). *)
+(** Every rule-obeying document outside the three surface classes is accepted.  (F16 appears
+    because a self-closing contour with a legal identifier is rule-obeying and accepted, but
+    sits in the class whose members the proof does not follow.) *)
+Theorem C12_complete : forall pf d,
+  glif_ok pf d -> ~ F14 d -> ~ F16 d -> ~ F17 d -> exists g, parse_glif pf d = Ok g.
+Proof. exact parse_complete. Qed.
+
+(** Outside the classes the reader accepts exactly the rule-obeying documents. *)
+Theorem C12_accepts_iff_ok : forall pf d,
+  ~ F14 d -> ~ F16 d -> ~ F17 d -> ((exists g, parse_glif pf d = Ok g) <-> glif_ok pf d).
+Proof.
+  intros pf d N14 N16 N17. split; [intros [g H]; apply (parse_sound pf d g H N16)|].
+  intros H. apply parse_complete; assumption.
+Qed.
+
+(** The full-strength statement (no class hypothesis) does not hold of the reader as it is:
+    it rejects legal surface forms (F14, F17). *)
 Definition C12_complete_full : Prop := forall pf d, glif_ok pf d -> exists g, parse_glif pf d = Ok g.
 
 (** F14: a leaf element written with start and end tag; a self-closing note; a comment inside the
